@@ -25,6 +25,7 @@ type sqlScript struct {
 	execN   int
 	pos     int
 	rowsErr bool
+	buf     []value // the driver's row buffer for []byte values, reused for every row
 }
 
 func (i *interpreter) sqlState() *sqlScript {
@@ -116,6 +117,10 @@ func (i *interpreter) sqlMethod(fr *frame, fn *ssa.Function, name string, args [
 			st.rowsErr = true
 			return false, true
 		}
+		// the driver's row buffer is reused: []byte values handed out for the previous row die here
+		for j := range st.buf {
+			i.writeCell(&st.buf[j], uint8('X'))
+		}
 		if st.pos >= len(st.rows) {
 			return false, true
 		}
@@ -134,7 +139,25 @@ func (i *interpreter) sqlMethod(fr *frame, fn *ssa.Function, name string, args [
 		if len(dests) != len(row) {
 			return iface{errorType, fmt.Sprintf("sql: expected %d destination arguments in Scan, not %d", len(row), len(dests))}, true
 		}
+		off := 0
 		for k, d := range dests {
+			if it, ok := row[k].(iface); ok {
+				if bs, ok := it.v.([]value); ok {
+					// a []byte value lives in the driver's row buffer (valid until the next Next)
+					if st.buf == nil {
+						st.buf = make([]value, 256)
+						for j := range st.buf {
+							st.buf[j] = uint8('X')
+						}
+					}
+					for j := range bs {
+						i.writeCell(&st.buf[off+j], bs[j])
+					}
+					row = append([]value{}, row...)
+					row[k] = iface{it.t, st.buf[off : off+len(bs) : off+len(bs)]}
+					off += len(bs)
+				}
+			}
 			di := d.(iface)
 			m := i.prog.LookupMethod(di.t, nil, "Scan")
 			if m == nil {
